@@ -30,6 +30,15 @@ def convert_dep5(obj: ClickObj) -> None:
     if not (project.root / ".reuse/dep5").exists():
         raise click.UsageError(_("No '.reuse/dep5' file."))
 
+    # Symbolic links are not followed: a linked REUSE.toml is not found as the
+    # project's own later on, and writing to it changes a file elsewhere.
+    if (project.root / "REUSE.toml").is_symlink():
+        raise click.UsageError(
+            _("'{path}' is a symbolic link.").format(
+                path=project.root / "REUSE.toml"
+            )
+        )
+
     text = toml_from_dep5(
         cast(ReuseDep5, project.global_licensing).dep5_copyright
     )
